@@ -128,7 +128,8 @@ def one_fault(setup, s1, k, mode, stats, n_ops):
     persist.restore(setup.tmp, setup.files)
     drv = setup.new_gateway()
     pers = drv.gw.tasks.persistence
-    plan = faultfs.FaultPlan(k, mode)
+    # the kind of failure rotates with the operation: I/O error, permission denied, disk full, read-only file system
+    plan = faultfs.FaultPlan(k, mode, errno_=(5, 13, 28, 30)[(k + len(setup.case["extra"])) % 4])
     raised = None
     with faultfs.Layer(plan) as layer:
         try:
@@ -175,8 +176,9 @@ def one_fault(setup, s1, k, mode, stats, n_ops):
             if raised and not pers.need_save and got != s1:
                 raise Violation(f"dirty_flag_lost.{setup.ext}", case, f"{where}: the save failed with {raised!r} but the state is no longer marked unsaved and the file holds the old state")
             del fully_in_place
+            # the same process tries again later: no flag is forced here - whether the library still knows that
+            # the state is unsaved is exactly what "the next save succeeds" depends on
             saver = drv
-            saver.gw.tasks.persistence.need_save = True
         else:
             saver = setup.new_gateway()
         try:
